@@ -336,6 +336,9 @@ def dbc_bad_lines(ctx, rng):
         'VAL_ %d %s 0 "TruncLabel" 1' % (sid, sname),
         'VAL_ %d %s 0 "TruncLabel" 1 "Tr' % (sid, sname),
         'VAL_ %d %s 7 "TruncLabel"' % (sid, sname),
+        'VAL_ %d %s 7 "Trunc;Label' % (sid, sname),          # cut inside a string that contains the terminator character
+        'BA_ "EcuStrAttr" BU_ %s "a;b' % ecu,
+        'BA_ "SystemMessageLongSymbol" BO_ %d "Trunc;Name' % fid,
         'VAL_TABLE_ TruncTable 0 "a" 1 "b"',
         'VAL_TABLE_ VtState 0 "Trunc"',
         'SIG_GROUP_ %d TruncGroup 1' % fid,
@@ -392,6 +395,21 @@ def dbc_bad_lines(ctx, rng):
         'BA_DEF_DEF_ "FrHexAttr" abc;',
         'BA_DEF_ BO_ "WrongDef" INT a b;',
     ]
+    # `typed`: lines that ARE well-formed statements but give a string / a fraction where the reader itself interprets the value as a
+    # number (the three Gen* attributes and enumeration indices).  They are not malformed by the line grammar, so they may take effect;
+    # the only expectation is the property's first one: the file still loads.
+    typed = [
+        'BA_ "GenMsgCycleTime" BO_ %d "fast";' % fid,
+        'BA_ "GenSigStartValue" SG_ %d %s "high";' % (sid, sname),
+        'BA_ "GenSigCycleTime" SG_ %d %s "slow";' % (sid, sname),
+        'BA_ "GenSigCycleTime" SG_ %d %s 12.5;' % (sid, sname),
+        'BA_ "VFrameFormat" BO_ %d "NoSuchFormat";' % fid,
+        'BA_ "FrEnumAttr" BO_ %d "cyclic";' % fid,
+        'BA_ "SigEnumAttr" SG_ %d %s "b";' % (sid, sname),
+        'BA_DEF_DEF_ "GenSigStartValue" "none";',
+    ]
+    for l in typed:
+        assert dbc_strictly_valid(l), l
     out = [("unknown", l) for l in unknown] + [("truncated", l) for l in truncated] + [("wrongtype", l) for l in wrongtype]
     for kind, l in out:
         assert not dbc_strictly_valid(l), ("generated bad line is valid DBC", l)
@@ -401,7 +419,7 @@ def dbc_bad_lines(ctx, rng):
                                "SIG_GROUP_", "SIG_VALTYPE_", "SG_MUL_VAL_"), l
         else:
             assert tok in DBC_KEYWORDS, l
-    return out
+    return out + [("typed", l) for l in typed]
 
 
 # ---- SYM (PEAK symbol file, format version 5 as written by canmatrix) ----
@@ -450,8 +468,8 @@ def sym_bad_lines(ctx, rng):
         "Var=WrongSig unsigned 0,8 /f:abc", "Var=WrongSig unsigned 0,8 /o:abc", "Var=WrongSig unsigned 0,8 /min:abc",
         "Var=WrongSig unsigned 0,8 /max:abc", "Var=WrongSig unsigned 0,8 /d:abc", "Var=WrongSig unsigned 0,8 /p:abc",
         "Var=WrongSig signed 0,8 -m /f:1..2",
-        "Mux=WrongMux 0,4 zz", "Mux=WrongMux a,b 1", "Mux=WrongMux 0,x 1", "Mux=WrongMux 0,4 7 /f:abc", "Mux=WrongMux 0,4 7 /o:abc",
-        "Mux=WrongMux 0,4 7 /min:abc", "Mux=WrongMux 0,4 7 /max:abc", "Mux=WrongMux 0,4 1.5",
+        "Mux=WrongMux 0,4 zz", "Mux=WrongMux a,b 1", "Mux=WrongMux 0,x 1", "Mux=WrongMux 0,4 7 -m /f:abc",
+        "Mux=WrongMux 0,4 7 -m /o:abc", "Mux=WrongMux 0,4 7 -h /min:abc", "Mux=WrongMux 0,4 7 -m /max:abc", "Mux=WrongMux 0,4 1.5",
     ]
     out = [("unknown", l) for l in unknown] + [("truncated", l) for l in truncated] + [("wrongtype", l) for l in wrongtype]
     for kind, l in out:
@@ -462,3 +480,390 @@ def sym_bad_lines(ctx, rng):
         else:
             assert key in SYM_KEYS or l.startswith("["), l
     return out
+
+
+# ------------------------------------------------------------------------------------------------------------------
+# the files under test
+# ------------------------------------------------------------------------------------------------------------------
+DBC_FEATURES = dict(n_frames=(2, 4), mux="mixed", value_tables=True, comments=True, attributes=True, long_names=True,
+                    multi_senders=True, signal_groups=True, cycle_times=True, initial_values=True, floats=True, fd=True, max_len=64,
+                    env_vars=True, free_signals=True, j1939=True)
+SYM_FEATURES = dict(n_frames=(2, 4), mux="mixed", value_tables=True, comments=True, cycle_times=True, unit_max=16, max_len=8,
+                    initial_values=True, floats=True)
+SYM_LOAD_ERROR_EXEMPT = ("Type=",)      # an unknown Type value is ignored silently (later format versions know more types)
+
+FILES = []       # dicts: fmt, name, data, lines, positions, (sym) sections ; filled before the worker pool forks
+
+
+def multiline_comments(db, rng):
+    """canmatrix's DBC writer emits comments verbatim, so a comment with a line break gives a multi-line CM_ statement"""
+    for fr in db.frames:
+        objs = [fr] + list(fr.signals)
+        for o in objs:
+            if o.comment and " " in o.comment and rng.random() < 0.4:
+                o.comment = o.comment.replace(" ", "\n", 1)
+                if rng.random() < 0.5 and " " in o.comment:
+                    o.comment = o.comment.replace(" ", "\n", 1)
+
+
+def make_files(rng, n_dbc, n_sym, C):
+    F = impl()
+    out = []
+    for k in range(n_dbc):
+        db = matgen.gen_matrix(rng, C, **DBC_FEATURES)
+        multiline_comments(db, rng)
+        b = io.BytesIO()
+        F.dump(db, b, "dbc")
+        out.append(dict(fmt="dbc", name="gen-dbc-%d" % k, data=b.getvalue(), generated=True, ecus=[e.name[:32] for e in db.ecus]))
+    for k in range(n_sym):
+        db = matgen.gen_matrix(rng, C, **SYM_FEATURES)
+        b = io.BytesIO()
+        F.dump(db, b, "sym")
+        out.append(dict(fmt="sym", name="gen-sym-%d" % k, data=b.getvalue(), generated=True, ecus=[]))
+    import glob
+    for fmt in ("dbc", "sym"):
+        for p in sorted(glob.glob(os.path.join(core.REPO, "tests", "files", fmt, "*." + fmt))):
+            out.append(dict(fmt=fmt, name="sample-" + os.path.basename(p), data=open(p, "rb").read(), generated=False, ecus=[]))
+    for f in out:
+        f["lines"] = split_lines(f["data"])
+        f["eol"] = b"\r\n" if b"\r\n" in f["data"] else b"\n"
+        if f["fmt"] == "dbc":
+            f["positions"] = dbc_positions(f["lines"])
+            f["sections"] = None
+            f["defs"] = dbc_defs(f["lines"])
+        else:
+            f["positions"], f["sections"] = sym_positions(f["lines"])
+            f["defs"] = sym_defs(f["lines"])
+    return out
+
+
+# ------------------------------------------------------------------------------------------------------------------
+# expectations for cut files, derived from the text (which lines define what) and the load of the complete file
+# ------------------------------------------------------------------------------------------------------------------
+def compound(cid):
+    """ArbitrationId.from_compound_integer: 29 identifier bits, bit 31 = extended (bits 29 and 30 are dropped, which is why the
+    reader never recognises its own free-signal frame 0xC0000000 as identifier 0x40000000: it stays a frame with identifier 0)"""
+    return (cid & 0x1FFFFFFF, bool(cid & 0x80000000))
+
+
+def find_frame(db, key):
+    for f in db.frames:
+        if (f.arbitration_id.id, bool(f.arbitration_id.extended)) == key:
+            return f
+    return None
+
+
+def dbc_expect(f, full):
+    """[(bo_line, key, is_free_signal_frame, [(sg_line, name, skeleton)])] ; None if the text and the complete load disagree on the
+    number of frames/signals (then the file is outside what this oracle understands and is only checked for 'no exception')."""
+    exp = []
+    keys = [compound(d[0]) for d in f["defs"]]
+    if len(set(keys)) != len(keys):
+        return None
+    for cid, bo, sgs in f["defs"]:
+        key = compound(cid)
+        free = cid == 0xC0000000
+        fr = find_frame(full, key)
+        sigs = full.signals if (free and fr is None) else (fr.signals if fr is not None else None)
+        if sigs is None or len(sigs) != len(sgs):
+            return None
+        exp.append((bo, key, free and fr is None, [(ln, s.name, skel_sig(s)) for (ln, _), s in zip(sgs, sigs)]))
+    n_real = len(full.frames) + (1 if any(e[2] for e in exp) else 0)
+    if n_real != len(exp):
+        return None
+    return exp
+
+
+def sym_groups(defs):
+    groups = []
+    for sec in defs:
+        if groups and groups[-1]["name"] == sec["name"]:
+            g = groups[-1]
+        else:
+            g = dict(name=sec["name"], need=[sec["header"]] + [x for x in (sec["id"], sec["type"]) if x is not None], siglines=[],
+                     has_mux=False)
+            groups.append(g)
+        if sec["mux"] is not None and not g["has_mux"]:
+            g["has_mux"] = True
+            g["siglines"].append((sec["mux"], g["name"] + "_MUX"))
+        lines = sorted([(ln, nm) for ln, nm in sec["vars"]])
+        # the Mux line precedes the Var lines of its section in every file canmatrix writes; keep file order in general
+        g["siglines"] += lines
+        g["siglines"].sort()
+    return groups
+
+
+def sym_expect(f, full):
+    groups = sym_groups(f["defs"])
+    if len(groups) != len(full.frames):
+        return None
+    exp = []
+    for g, fr in zip(groups, full.frames):
+        if len(fr.signals) != len(g["siglines"]) or fr.name != g["name"]:
+            return None
+        exp.append((g["need"], (fr.arbitration_id.id, bool(fr.arbitration_id.extended)), fr.name,
+                    [(ln, s.name, skel_sig(s)) for (ln, _), s in zip(g["siglines"], fr.signals)]))
+    return exp
+
+
+def check_cut(f, exp, cut):
+    """returns list of (key_suffix, what, expected, observed)"""
+    fmt = f["fmt"]
+    db, err = load(f["data"][:cut], fmt)
+    if err:
+        return [("cut-raises", "an exception escapes loads() of the file cut after %d bytes" % cut, "no exception", err)], 0
+    if exp is None:
+        return [], 0
+    lines = f["lines"]
+    done = lambda ln: lines[ln][1] <= cut          # the line's content (terminator and trailing blanks aside) lies before the cut
+    bad = []
+    nobj = 0
+    if fmt == "dbc":
+        for bo, key, free, sigs in exp:
+            if not done(bo):
+                continue
+            nobj += 1
+            fr = find_frame(db, key)
+            got = db.signals if (free and fr is None) else (fr.signals if fr is not None else None)
+            if got is None:
+                bad.append(("cut-loses-frame", "frame %s whose BO_ line is complete is absent" % (key,), key, "absent"))
+                continue
+            for k, (ln, name, sk) in enumerate(sigs):
+                if not done(ln):
+                    break
+                nobj += 1
+                if k >= len(got):
+                    bad.append(("cut-loses-signal", "signal %s of frame %s (complete SG_ line) is absent" % (name, key), sk, "absent"))
+                elif skel_sig(got[k]) != sk or not name.startswith(got[k].name[:32]) and got[k].name != name:
+                    bad.append(("cut-changes-signal", "signal %s of frame %s differs from the complete file" % (name, key),
+                                (name, sk), (got[k].name, skel_sig(got[k]))))
+    else:
+        for j, (need, key, name, sigs) in enumerate(exp):
+            if not all(done(ln) for ln in need):
+                continue
+            nobj += 1
+            fr = db.frames[j] if j < len(db.frames) else None
+            if fr is None or (fr.arbitration_id.id, bool(fr.arbitration_id.extended)) != key or fr.name != name:
+                bad.append(("cut-loses-frame", "frame %s %s whose [name]/ID/Type lines are complete is absent or has another identifier"
+                            % (name, key), (name, key),
+                            None if fr is None else (fr.name, fr.arbitration_id.id, bool(fr.arbitration_id.extended))))
+                continue
+            for k, (ln, sname, sk) in enumerate(sigs):
+                if not done(ln):
+                    break
+                nobj += 1
+                if k >= len(fr.signals):
+                    bad.append(("cut-loses-signal", "signal %s of frame %s (complete Var=/Mux= line) is absent" % (sname, name), sk, "absent"))
+                elif skel_sig(fr.signals[k]) != sk or fr.signals[k].name != sname:
+                    bad.append(("cut-changes-signal", "signal %s of frame %s differs from the complete file" % (sname, name),
+                                (sname, sk), (fr.signals[k].name, skel_sig(fr.signals[k]))))
+    return bad, nobj
+
+
+# ------------------------------------------------------------------------------------------------------------------
+# worker side
+# ------------------------------------------------------------------------------------------------------------------
+_CACHE = {}
+
+
+def file_state(fi):
+    if fi not in _CACHE:
+        f = FILES[fi]
+        db, err = load(f["data"], f["fmt"])
+        st = dict(err=err)
+        if db is not None:
+            st["nf"] = nf_of(db)
+            st["nerr"] = len(db.load_errors)
+            st["exp"] = dbc_expect(f, db) if f["fmt"] == "dbc" else sym_expect(f, db)
+        _CACHE[fi] = st
+    return _CACHE[fi]
+
+
+def b64(b):
+    return base64.b64encode(b).decode("ascii")
+
+
+def work(item):
+    """item = (task, file_index, payload).  Returns dict(viol=[...], n=cases, nontrivial=[hashes], counts={})"""
+    task, fi, payload = item
+    f = FILES[fi]
+    fmt = f["fmt"]
+    st = file_state(fi)
+    res = dict(viol=[], n=0, nontrivial=[], counts={})
+
+    def cnt(k, n=1):
+        res["counts"][k] = res["counts"].get(k, 0) + n
+    if st["err"]:
+        return res
+    if task == "ins":
+        for inserts in payload:          # inserts: list of (position_index, kind, line)
+            ins = [(f["positions"][pi], l.encode("latin1")) for pi, _, l in inserts]
+            data2 = insert_lines(f["lines"], ins, f["eol"])
+            db, err = load(data2, fmt)
+            res["n"] += 1
+            kinds = sorted({k for _, k, _ in inserts})
+            cnt("%s-insert-%d" % (fmt, len(inserts)))
+            for k in kinds:
+                cnt("%s-kind-%s" % (fmt, k))
+            last = max(pi for pi, _, _ in inserts)
+            if f["positions"][min(pi for pi, _, _ in inserts)] < len(f["lines"]):
+                res["nontrivial"].append(hash((f["name"], tuple(inserts))))
+            inp = dict(file=f["name"], format=fmt, inserted=[dict(before_line=f["positions"][pi] + 1, kind=k, line=l) for pi, k, l in inserts],
+                       faulted_file_b64=b64(data2))
+            if err:
+                key = "%s-typed-raises" % fmt if kinds == ["typed"] else "%s-badline-raises" % fmt
+                res["viol"].append((key, "an exception escapes loads() of a %s file with inserted %s line(s)" % (fmt, "/".join(kinds)),
+                                    inp, "no exception", err))
+                continue
+            if "typed" not in kinds:
+                df = matgen.diff(st["nf"], nf_of(db))
+                if df:
+                    res["viol"].append(("%s-badline-changes-result" % fmt,
+                                        "inserted %s line(s) change what the reader returns" % "/".join(kinds), inp,
+                                        "normal form of the clean file", [list(map(str, d)) for d in df[:4]]))
+            if fmt == "sym":
+                want = st["nerr"] + sum(1 for pi, k, l in inserts
+                                        if k in ("truncated", "wrongtype") and f["sections"][pi] == "frames"
+                                        and not l.startswith(SYM_LOAD_ERROR_EXEMPT))
+                if len(db.load_errors) != want:
+                    res["viol"].append(("sym-badline-not-recorded", "load_errors does not hold one entry per statement that failed to parse",
+                                        inp, want, len(db.load_errors)))
+    elif task == "cut":
+        for cut in payload:
+            bad, nobj = check_cut(f, st["exp"], cut)
+            res["n"] += 1
+            cnt("%s-cut" % fmt)
+            cnt("%s-cut-objects-compared" % fmt, nobj)
+            if nobj:
+                res["nontrivial"].append(hash((f["name"], "cut", cut)))
+            for suffix, what, exp, obs in bad:
+                res["viol"].append(("%s-%s" % (fmt, suffix), what, dict(file=f["name"], format=fmt, cut_after_bytes=cut,
+                                                                        cut_file_b64=b64(f["data"][:cut])), exp, obs))
+    return res
+
+
+# ------------------------------------------------------------------------------------------------------------------
+# the check
+# ------------------------------------------------------------------------------------------------------------------
+def chunks(l, n):
+    for i in range(0, len(l), n):
+        yield l[i:i + n]
+
+
+def plan_file(fi, f, rng, thorough):
+    """work items for one file"""
+    items = []
+    npos = len(f["positions"])
+    if f["fmt"] == "dbc":
+        ids = [d[0] for d in f["defs"]]
+        ctx = dict(frame_ids=ids, sigs=[(d[0], s[1]) for d in f["defs"] for s in d[2]], ecus=f["ecus"],
+                   fresh_id=max([i & 0x7FF for i in ids] + [0x100]) % 0x7FF + 1)
+        while ctx["fresh_id"] in ids:
+            ctx["fresh_id"] += 1
+        bad = []
+        for _ in range(3 if thorough else 2):      # several draws so that different existing objects are referred to
+            bad += dbc_bad_lines(ctx, rng)
+        bad = list(dict.fromkeys(bad))
+    else:
+        bad = sym_bad_lines({}, rng)
+    f["nbad"] = len(bad)
+    singles = []
+    if thorough:
+        for pi in range(npos):
+            for k, l in bad:
+                singles.append([(pi, k, l)])
+    else:
+        q = 7
+        for pi in range(npos):
+            for j in range(q):
+                k, l = bad[(pi * q + j) % len(bad)]
+                singles.append([(pi, k, l)])
+        for k, l in bad:
+            for pi in {0, npos - 1, rng.randrange(npos), rng.randrange(npos)}:
+                singles.append([(pi, k, l)])
+    multis = []
+    for _ in range(1500 if thorough else 100):
+        m = rng.choice([2, 2, 3, 4])
+        multis.append([(rng.randrange(npos),) + bad[rng.randrange(len(bad))] for _ in range(m)])
+    for c in chunks(singles + multis, 120):
+        items.append(("ins", fi, c))
+    n = len(f["data"])
+    if thorough or n <= 12000:
+        cuts = list(range(0, n + 1))
+    else:
+        cuts = sorted(set(range(0, n + 1, 5)) | set(range(0, 2500)) | {n - k for k in range(0, 400)})
+    f["ncuts"] = len(cuts)
+    f["allcuts"] = len(cuts) == n + 1
+    for c in chunks(cuts, 150):
+        items.append(("cut", fi, c))
+    return items
+
+
+def run(chk):
+    global FILES
+    thorough = chk.tier == "thorough"
+    chk.rule = ("files: canmatrix's own DBC output (all content classes of matgen incl. multi-line comments, extended multiplexing, long "
+                "names, free signals, environment variables) and SYM output (what sym.py dump expresses) for seeded matrices, plus "
+                "tests/files/dbc/*.dbc and tests/files/sym/*.sym.  Faults: malformed lines (unknown keyword / truncated / wrong field type; "
+                "each rejected by an independent strict line grammar, see dbc_bad_lines/sym_bad_lines) inserted at every admissible "
+                "position (DBC: not inside a multi-line CM_ and not directly before an SG_ line; SYM: not inside an enum(...) continuation), "
+                "multisets of 2..4, and every byte cut.  A line 'lies completely before the cut' when all bytes of its content (line "
+                "terminator and trailing blanks aside) are before it; a DBC signal's defining lines are its frame's BO_ line and its SG_ "
+                "line, a SYM frame's are the [name], ID= and Type= lines of its first section, a SYM signal's additionally its Var= "
+                "line (the first Mux= line for the <frame>_MUX signal).  non-trivial = the (first) fault lies before the end of the file, "
+                "resp. at least one object is complete before the cut; distinct by (file, fault)")
+    ok = chk.build_and_audit()
+    cm = core.import_impl()
+    C = cm.canmatrix
+    rng = chk.rng
+    FILES = make_files(rng, 24 if thorough else 4, 24 if thorough else 4, C)
+    items = []
+    for fi, f in enumerate(FILES):
+        st = file_state(fi)
+        chk.count("files-" + f["fmt"] + ("-generated" if f["generated"] else "-sample"))
+        if st["err"]:
+            chk.violation("%s-clean-raises" % f["fmt"], "a well-formed file does not load", dict(file=f["name"], file_b64=b64(f["data"])),
+                          "no exception", st["err"])
+            continue
+        if f["generated"]:
+            valid = dbc_strictly_valid if f["fmt"] == "dbc" else sym_strictly_valid
+            in_cm = False
+            for ln, (_, _, _, raw) in enumerate(f["lines"]):
+                # continuation lines of multi-line statements are not statements of their own
+                admissible = ln in set(f["positions"])
+                if admissible and not valid(raw.decode("latin1")):
+                    raise AssertionError("strict grammar rejects a line canmatrix wrote: %r" % raw)
+            if st["exp"] is None:
+                raise AssertionError("text tokenizer and reader disagree on the objects of generated file " + f["name"])
+            if f["fmt"] == "sym" and st["nerr"]:
+                chk.violation("sym-clean-load-errors", "canmatrix's own SYM output is read back with load errors",
+                              dict(file=f["name"], file_b64=b64(f["data"])), 0, st["nerr"])
+        elif st["exp"] is None:
+            chk.notes.append("%s: text tokenizer and reader disagree on the object list; cut sweep checks 'no exception' only" % f["name"])
+        items += plan_file(fi, f, rng, thorough)
+        chk.count("positions-" + f["fmt"], len(f["positions"]))
+    chk.extra["files"] = [dict(name=f["name"], bytes=len(f["data"]), lines=len(f["lines"]), insert_positions=len(f["positions"]),
+                               bad_lines=f.get("nbad"), cuts=f.get("ncuts"), every_byte_cut=f.get("allcuts")) for f in FILES]
+    chk.exhaustive = all(f.get("allcuts") for f in FILES) and thorough
+    _CACHE.clear()
+    ctx = multiprocessing.get_context("fork")
+    with ctx.Pool(min(core.NPROC, 16)) as pool:
+        for res in pool.imap_unordered(work, items, chunksize=1):
+            chk.evaluations += res["n"]
+            chk.nontrivial.update(res["nontrivial"])
+            for k, n in res["counts"].items():
+                chk.count(k, n)
+            for key, what, inp, exp, obs in res["viol"]:
+                chk.count("failing-" + key)
+                if chk.hist["failing-" + key] <= 6:          # core keeps 50 in total: leave room for every failure class
+                    chk.violation(key, what, inp, exp, obs)
+    f0 = FILES[0]
+    chk.sample(dict(file=f0["name"], fault="line inserted before line %d" % (f0["positions"][3] + 1), line='BA_ "GenMsgCycleTime" BO_ 291 abc;',
+                    expectation="same normal form as the clean file"))
+    chk.sample(dict(file=f0["name"], fault="cut after byte %d" % (len(f0["data"]) // 2),
+                    expectation="no exception; objects whose defining lines precede the cut as in the complete file"))
+    tie(chk, ok, rng, thorough)
+
+
+def tie(chk, ok, rng, thorough):
+    chk.ties["correspondence"] = "not run"
